@@ -53,9 +53,12 @@ def _container(draw, thresholds, min_n=0, max_n=60, positive=False):
         cell = st.one_of(st.sampled_from(pool), st.floats(lo, R * 1.2), st.floats(lo, R * 1.2), weird) if pool \
             else st.one_of(st.floats(lo, R * 1.2), st.floats(lo, R * 1.2), st.floats(lo, R * 1.2), weird)
     cells = [[draw(cell) for _ in range(D)] for _ in range(N)]
+    if kind.startswith('sample'):
+        # every other channel of a sample has twice the range (see _materialise): move its top values along
+        cells = [[(v + R if (j % 2 == 1 and v in (R - 2, R - 1)) else v) for j, v in enumerate(row)] for row in cells]
     names = list(draw(st.permutations([n for n in NAME_POOL if n != 'Time']))[:D])
     return dict(kind=kind, D=D, R=R, cells=cells, names=names,
-                derived=draw(st.sampled_from([None, None, None, ['slice', 1], ['list', 2]])))
+                derived=draw(st.sampled_from([None, None, None, ['slice', 1], ['list', 2], ['perm', 1], ['permname', 2]])))
 
 
 def _materialise(c):
@@ -66,10 +69,10 @@ def _materialise(c):
     if kind == 'array_i':
         return np.array(cells, dtype=np.int64).reshape((len(cells), D)), None
     spec = dict(version='FCS3.0', datatype='I' if kind == 'sample_i' else 'D', byteord='1,2,3,4',
-                widths=[16 if kind == 'sample_i' else 64] * D, ranges=[R] * D, names=c['names'],
-                events=cells, pne=['0,0'] * D)
+                widths=[16 if kind == 'sample_i' else 64] * D, ranges=[R * (1 + j % 2) for j in range(D)],
+                names=c['names'], events=cells, pne=['0,0'] * D)          # every other channel has twice the range
     d = build(spec) if not c.get('derived') else derived_from_used_parent(spec, c['derived'][1], c['derived'][0])
-    return d, [[0.0, R - 1.0]] * D
+    return d, [[0.0, R * (1 + j % 2) - 1.0] for j in range(D)]
 
 
 @st.composite
@@ -100,12 +103,17 @@ def _high_low(draw):
 def _ellipse(draw):
     exact = draw(st.booleans())
     log = draw(st.booleans())
-    if exact:
+    if exact and log:
+        # whole decades: log10 of a power of ten is exact, so points where the ellipse touches its bounding box
+        # are exactly on it
+        cx, cy = float(draw(st.integers(1, 3))), float(draw(st.integers(1, 3)))
+        a, b = float(draw(st.integers(1, 2))), float(draw(st.integers(1, 2)))
+        theta = 0.0
+    elif exact:
         cx, cy = float(draw(st.integers(1, 500))), float(draw(st.integers(1, 500)))
         a = float(2 ** draw(st.integers(-1, 6)))
         b = float(2 ** draw(st.integers(-1, 6)))
         theta = 0.0
-        log = False
     else:
         if log:
             cx, cy = draw(st.floats(0.5, 2.5)), draw(st.floats(0.5, 2.5))
@@ -124,6 +132,8 @@ def _ellipse(draw):
     if exact:
         # put exactly representable boundary points into the data: centre +- a on x, centre +- b on y
         pts = [(cx + a, cy), (cx - a, cy), (cx, cy + b), (cx, cy - b), (cx, cy)]
+        if log:
+            pts = [(10.0 ** px, 10.0 ** py) for px, py in pts]
         for i, (px, py) in enumerate(pts):
             if i < len(c['cells']):
                 if c['kind'] in ('array_i', 'sample_i'):
